@@ -287,7 +287,7 @@ def run(tier):
 
     corr_n = declined = 0
     if model_ok:
-        idx = [i for i in range(len(progs)) if 'model' in impl[i] and 'host' not in impl[i]]
+        idx = [i for i in range(len(progs)) if 'model' in impl[i] and 'host' not in impl[i] and not impl[i].get('rt', '').startswith('Exceeded maximum')]
         budget = 450 if tier == 'quick' else 4000
         if len(idx) > budget:
             idx = sorted(r.sample(idx, budget))
